@@ -122,6 +122,7 @@ func (e *Engine) lenOf(v Value) *Term {
 		if x.obj == nil {
 			return e.c64(0)
 		}
+		e.raceAccessMap(x.obj, false, e.pos)
 		return e.c64(uint64(e.mapLen(x.obj)))
 	case *Array:
 		return e.c64(uint64(len(x.elems)))
@@ -157,6 +158,7 @@ func (e *Engine) builtin(fr *frame, b *ssa.Builtin, args []Value, c *ssa.CallCom
 	case "delete":
 		m := args[0].(*MapV)
 		if m.obj != nil {
+			e.raceAccessMap(m.obj, true, c.Pos())
 			e.mapDelete(m.obj, args[1])
 		}
 		return nil
